@@ -103,10 +103,10 @@ impl GenCfg {
         let huge = rng.chance(1, if matches!(prop, "C02" | "C09" | "C14") { 30 } else { 60 });
         let mut steps_override: Option<usize> = None;
         if huge {
-            max_live = match rng.below(if matches!(prop, "C14" | "C16" | "C09") { 6 } else { 8 }) {
+            max_live = match rng.below(if matches!(prop, "C14" | "C16" | "C09") { 10 } else { 16 }) {
                 0..=2 => rng.range(80, 300),
                 3 | 4 => rng.range(260, 450),
-                6 | 7 => rng.range(80, 300),
+                6..=15 => rng.range(80, 300),
                 // a few are giant: limits around 512 and 1024 levels / nodes
                 _ => rng.range(600, 1300),
             } as usize;
